@@ -495,13 +495,15 @@ def k4_key_normal_form(ctx, K: Kinds) -> None:
         if loop is None or not isinstance(loop.target, ast.Tuple) or len(loop.target.elts) != 2 or not all(isinstance(e, ast.Name) for e in loop.target.elts):
             raise AnalysisError("K4: rules_up_to_equivalence no longer iterates over (start, ends) pairs")
         sv, ev = (e.id for e in loop.target.elts)
-        dropped = False
-        for t, pol in C.guards(m.node, s, within=loop):
-            if pol:
-                continue
+        # under "one child, equivalent to the parent" the store must not run
+        eq_atoms = {}
+        for t, _pol in C.guards(m.node, s, within=loop):
             for x in ast.walk(t):
                 if _is_equivalence_test(x, sv, ev, K, m.node):
-                    dropped = True
+                    eq_atoms[norm(x)] = True
+        facts = dict(eq_atoms)
+        facts[f"len({ev}) == 1"] = True
+        dropped = bool(eq_atoms) and C.runs_under(m.node, s, facts, within=loop) is False
         if dropped:
             ctx.ok("K4", "a rule whose only child is equivalent to its parent is left out of the collapsed dictionary")
         else:
